@@ -14,6 +14,8 @@ long verif_syscall(long nr, long a, long b);
 #undef syscall
 #include "stubs/base.h"
 #include "stubs/lock.h"
+static int g_shared_kick_fd = -1, g_kick_closed_unlocked;
+#define VERIF_ON_CLOSE(fd)	do { if ((fd) == g_shared_kick_fd && !g_lock_held) g_kick_closed_unlocked++; } while (0)
 #include "stubs/fd_model.h"
 #include "stubs/epoll_model.h"
 
@@ -278,7 +280,9 @@ void h_event_rx_off(void)
 	v_build_kick();
 	__CPROVER_assume(verif_in.refcount >= 1 && verif_in.numobjs >= 1);
 	k_ep[2].present = 1; k_ep[2].events = 0; k_ep[2].ptr = &v_state;
+	g_shared_kick_fd = iv_active_fd;
 	iv_fd_epoll_event_rx_off(&v_state);
+	__CPROVER_assert(g_kick_closed_unlocked == 0, "[C08,C14] the process-wide kick descriptor is closed inside the critical section that found its last user gone: after the unlock another thread may already have created (and been handed the number of) a fresh one");
 	__CPROVER_assert(!k_ep[2].present && k_ctl_bad == 0, "[C08,C18] the kick registration is removed from this thread's epoll set");
 	__CPROVER_assert(iv_active_fd_refcount == verif_in.refcount - 1, "[C18] reference dropped");
 	__CPROVER_assert(IFF(verif_in.refcount == 1, k_closes == 1) && k_bad_close == 0, "[C18] the shared descriptor is closed by its last user, once");
